@@ -1,1 +1,672 @@
-//! paramsim — engine skeleton (see DESIGN.md §4/§5).
+//! paramsim — C18: peer transport parameters are validated and bound to the on-wire connection ids.
+//!
+//! One case = one handshake seen from one endpoint: the peer's transport-parameter extension (a byte blob
+//! built entry by entry), the source connection id observed in the peer's first packet, the order in which
+//! the two arrive, waiters on `remote_ready()`, an optional unrelated connection error, and (client) a set
+//! of remembered server parameters for 0-RTT. The real `qbase::param` code is driven the way
+//! `qconnection::{tls, space::initial, builder}` drive it; the oracle is the RFC table in [`rfc`].
+pub mod exec;
+pub mod rfc;
+
+use rfc::{Ty, VMAX};
+use serde::{Deserialize, Serialize};
+use simcore::{Engine, Outcome, Rng, Tier};
+
+/// one TLV of the peer's transport-parameter extension
+#[derive(Clone, Debug, Serialize, Deserialize, PartialEq)]
+pub struct Entry {
+    pub id: u64,
+    /// the value bytes exactly as they go on the wire
+    pub value: Vec<u8>,
+    /// encoded width of the id / length varints (0 = shortest)
+    pub id_width: u8,
+    pub len_width: u8,
+    /// length field written instead of `value.len()`
+    pub declared_len: Option<u64>,
+    /// encode with `qbase::param::WriteParameter` when the entry is representable there
+    pub real_writer: bool,
+}
+
+impl Entry {
+    pub fn new(id: u64, value: Vec<u8>) -> Self {
+        Entry { id, value, id_width: 0, len_width: 0, declared_len: None, real_writer: false }
+    }
+}
+
+#[derive(Clone, Copy, Debug, Serialize, Deserialize, PartialEq)]
+pub enum Op {
+    /// the TLS stack hands over the peer's extension: parse, (client) 0-RTT decision, `recv_remote_params`
+    Tls,
+    /// the peer's first Initial packet is accepted: `initial_scid_from_peer_need_equal(observed_scid)`
+    Initial,
+    /// (client) a Retry packet was received: `retry_scid_from_server_need_equal(retry_scid)`
+    Retry,
+    /// a new task starts waiting on `remote_ready()`
+    Wait,
+    /// spurious poll of waiter `n % waiters`
+    Spurious(u8),
+    /// the connection fails for an unrelated reason: `on_conn_error`
+    ConnError(u8),
+}
+
+#[derive(Clone, Debug, Serialize, Deserialize)]
+pub struct Case {
+    /// role of the endpoint under test; the peer has the other role
+    pub client_under_test: bool,
+    /// local max_idle_timeout in ms (0 = not advertised)
+    pub local_idle_ms: u64,
+    pub entries: Vec<Entry>,
+    /// bytes removed from the end of the assembled extension
+    pub cut_tail: u16,
+    /// source connection id of the peer's first Initial packet
+    pub observed_scid: Vec<u8>,
+    /// destination connection id of the client's first Initial packet (client under test)
+    pub odcid: Vec<u8>,
+    /// source connection id of the Retry packet (`Op::Retry`)
+    pub retry_scid: Vec<u8>,
+    /// (client) remembered server parameters of an earlier connection: (id, value)
+    pub remembered: Option<Vec<(u64, u64)>>,
+    pub ops: Vec<Op>,
+    /// what the generator injected (drives the `fault.*` counters only)
+    pub labels: Vec<String>,
+}
+
+pub struct ParamSim;
+
+fn rand_bytes(r: &mut Rng, n: usize) -> Vec<u8> {
+    let mut v = vec![0u8; n];
+    r.fill(&mut v);
+    v
+}
+
+fn varint_bytes(v: u64, width: u8) -> Vec<u8> {
+    let mut b = Vec::new();
+    rfc::put_varint(&mut b, v, width);
+    b
+}
+
+/// legal values at the edges of each integer parameter's range and at the varint width boundaries
+fn legal_int(id: u64, r: &mut Rng) -> u64 {
+    const W: [u64; 9] = [0, 1, 63, 64, 16383, 16384, (1 << 30) - 1, 1 << 30, VMAX];
+    let d = rfc::def(id).expect("known id");
+    let special: &[u64] = match id {
+        rfc::MAX_IDLE_TIMEOUT => &[0, 1, 999, 1000, 20_000, 30_000],
+        rfc::MAX_UDP_PAYLOAD => &[1200, 1201, 1472, 65527, 65527, 1200],
+        rfc::MAX_STREAMS_BIDI | rfc::MAX_STREAMS_UNI => &[0, 100, (1 << 60) - 1, 1 << 60, 1 << 60],
+        rfc::ACK_DELAY_EXPONENT => &[0, 3, 19, 20, 20],
+        rfc::MAX_ACK_DELAY => &[0, 25, (1 << 14) - 1, (1 << 14) - 1],
+        rfc::ACTIVE_CID_LIMIT => &[2, 2, 3, 8],
+        rfc::MAX_DATAGRAM => &[0, 1200, 65535],
+        _ => &[0, 1 << 20],
+    };
+    for _ in 0..8 {
+        let v = if r.one_in(2) { *r.pick(special) } else { *r.pick(&W) };
+        // max_udp_payload_size above 65527 is RFC-legal but injected separately (`legal_edge.*`)
+        let hi = if id == rfc::MAX_UDP_PAYLOAD { 65527 } else { d.max };
+        if v >= d.min && v <= hi {
+            return v;
+        }
+    }
+    d.min
+}
+
+fn pref_addr(r: &mut Rng, cid: &[u8]) -> Vec<u8> {
+    let mut v = rand_bytes(r, 24);
+    v.push(cid.len() as u8);
+    v.extend_from_slice(cid);
+    v.extend(rand_bytes(r, 16));
+    v
+}
+
+fn different_cid(r: &mut Rng, base: &[u8]) -> Vec<u8> {
+    let mut v = base.to_vec();
+    match r.below(5) {
+        // same bytes plus a zero byte: only the length differs from a zero-padded comparison
+        0 if v.len() < 20 => v.push(0),
+        1 if !v.is_empty() => {
+            v.pop();
+        }
+        2 if !v.is_empty() => {
+            let i = r.usize_below(v.len());
+            v[i] ^= 1 << r.below(8);
+        }
+        3 if !v.is_empty() => v.clear(),
+        _ => {
+            let n = if v.len() == 8 { 9 } else { 8 };
+            v = rand_bytes(r, n);
+        }
+    }
+    v
+}
+
+fn legal_value(id: u64, r: &mut Rng, observed_scid: &[u8], odcid: &[u8], retry_scid: &[u8]) -> Vec<u8> {
+    let d = rfc::def(id).expect("known id");
+    match d.ty {
+        Ty::Int => varint_bytes(legal_int(id, r), 0),
+        Ty::Flag => Vec::new(),
+        Ty::Cid => match id {
+            rfc::ISCID => observed_scid.to_vec(),
+            rfc::ODCID => odcid.to_vec(),
+            _ => retry_scid.to_vec(),
+        },
+        Ty::Token => rand_bytes(r, 16),
+        Ty::PrefAddr => {
+            let n = *r.pick(&[1usize, 4, 8, 20]);
+            let cid = rand_bytes(r, n);
+            pref_addr(r, &cid)
+        }
+        Ty::Bytes => b"client.example"[..r.usize_below(15)].to_vec(),
+    }
+}
+
+fn find(entries: &[Entry], id: u64) -> Option<usize> {
+    entries.iter().position(|e| e.id == id)
+}
+
+fn upsert(entries: &mut Vec<Entry>, r: &mut Rng, id: u64, value: Vec<u8>) {
+    match find(entries, id) {
+        Some(i) => {
+            entries[i].value = value;
+            entries[i].declared_len = None;
+        }
+        None => {
+            let at = r.usize_below(entries.len() + 1);
+            entries.insert(at, Entry::new(id, value));
+        }
+    }
+}
+
+pub fn generate(seed: u64) -> Case {
+    let mut c = Rng::derive(seed, "cfg");
+    let client_ut = c.one_in(2);
+    let peer_server = client_ut;
+    let local_idle_ms = *c.pick(&[0u64, 0, 1, 999, 1000, 20_000, 30_000, 16384, 1 << 30, VMAX]);
+
+    let mut cr = Rng::derive(seed, "cids");
+    let n = *cr.pick(&[0usize, 1, 4, 8, 8, 16, 20]);
+    let mut observed_scid = rand_bytes(&mut cr, n);
+    let n = *cr.pick(&[8usize, 8, 16, 20, 1]);
+    let mut odcid = rand_bytes(&mut cr, n);
+    let n = *cr.pick(&[4usize, 8, 20]);
+    let retry_scid = rand_bytes(&mut cr, n);
+
+    let mut p = Rng::derive(seed, "params");
+    let density = *p.pick(&[0.15, 0.5, 0.9]);
+    let mut retry_op = client_ut && p.one_in(8);
+    let mut labels: Vec<String> = Vec::new();
+    let mut entries: Vec<Entry> = Vec::new();
+    for d in rfc::TABLE.iter() {
+        let required = d.id == rfc::ISCID || (peer_server && d.id == rfc::ODCID);
+        if (d.server_only && !peer_server) || (d.id == rfc::CLIENT_NAME && peer_server) {
+            continue;
+        }
+        if d.id == rfc::RETRY_SCID {
+            if retry_op {
+                entries.push(Entry::new(d.id, retry_scid.clone()));
+                labels.push("retry.match".into());
+            }
+            continue;
+        }
+        // a server with a zero-length connection id must not send a preferred address: not in the legal baseline
+        if d.id == rfc::PREFERRED_ADDRESS && observed_scid.is_empty() {
+            continue;
+        }
+        if !required && !p.chance(density) {
+            continue;
+        }
+        entries.push(Entry::new(d.id, legal_value(d.id, &mut p, &observed_scid, &odcid, &retry_scid)));
+    }
+    if p.one_in(2) {
+        p.shuffle(&mut entries);
+    }
+
+    // injections
+    let mut f = Rng::derive(seed, "faults");
+    let budget = match f.below(20) {
+        0..=5 => 0,
+        6..=15 => 1,
+        16..=18 => 2,
+        _ => 3,
+    };
+    let mut cut_tail = 0u16;
+    let mut applied = 0;
+    let mut tries = 0;
+    while applied < budget && tries < 40 {
+        tries += 1;
+        let int_ids: Vec<u64> = entries.iter().filter(|e| rfc::def(e.id).is_some_and(|d| d.ty == Ty::Int)).map(|e| e.id).collect();
+        let label: String = match f.below(24) {
+            0 => {
+                let id = if peer_server && f.one_in(2) { rfc::ODCID } else { rfc::ISCID };
+                entries.retain(|e| e.id != id);
+                format!("absent_required.{}", rfc::name_of(id))
+            }
+            1 | 2 => {
+                let (id, vals): (u64, &[u64]) = match f.below(6) {
+                    0 => (rfc::MAX_UDP_PAYLOAD, &[1199, 0, 1, 63]),
+                    1 => (rfc::ACK_DELAY_EXPONENT, &[21, 63, 64, VMAX]),
+                    2 => (rfc::MAX_ACK_DELAY, &[1 << 14, (1 << 14) + 1, 1 << 30, VMAX]),
+                    3 => (rfc::ACTIVE_CID_LIMIT, &[0, 1]),
+                    4 => (rfc::MAX_STREAMS_BIDI, &[(1 << 60) + 1, VMAX]),
+                    _ => (rfc::MAX_STREAMS_UNI, &[(1 << 60) + 1, VMAX]),
+                };
+                let v = *f.pick(vals);
+                upsert(&mut entries, &mut f, id, varint_bytes(v, 0));
+                format!("out_of_range.{}", rfc::name_of(id))
+            }
+            3 => {
+                if peer_server {
+                    continue;
+                }
+                let id = *f.pick(&[rfc::ODCID, rfc::RESET_TOKEN, rfc::PREFERRED_ADDRESS, rfc::RETRY_SCID]);
+                let v = legal_value(id, &mut f, &observed_scid, &odcid, &retry_scid);
+                upsert(&mut entries, &mut f, id, v);
+                format!("wrong_role.{}", rfc::name_of(id))
+            }
+            4 => {
+                if entries.is_empty() {
+                    continue;
+                }
+                let i = f.usize_below(entries.len());
+                let mut e = entries[i].clone();
+                let same = f.one_in(2);
+                if !same {
+                    if let Some(d) = rfc::def(e.id) {
+                        e.value = match d.ty {
+                            Ty::Cid => different_cid(&mut f, &e.value),
+                            _ => legal_value(e.id, &mut f, &observed_scid, &odcid, &retry_scid),
+                        };
+                    }
+                }
+                let at = f.usize_below(entries.len() + 1);
+                entries.insert(at, e);
+                if same { "duplicate.same".into() } else { "duplicate.different".into() }
+            }
+            5 | 6 => {
+                let id = loop {
+                    let id = *f.pick(&[0x11u64, 0x1f, 0x21, 0x3f, 0x40, 0x2ab1, 0x2ab3, 0xffed, 0xffef, 1 << 30, VMAX - 1]);
+                    if rfc::def(id).is_none() && !rfc::is_grease(id) {
+                        break id;
+                    }
+                };
+                let n = *f.pick(&[0usize, 1, 8, 63, 64, 300]);
+                let v = rand_bytes(&mut f, n);
+                let at = f.usize_below(entries.len() + 1);
+                entries.insert(at, Entry::new(id, v));
+                "unknown_id".into()
+            }
+            7 | 8 => {
+                let nmax = (VMAX - 27) / 31;
+                let k = match f.below(4) {
+                    0 => 0,
+                    1 => f.below(4),
+                    2 => nmax,
+                    _ => f.below(nmax + 1),
+                };
+                let n = *f.pick(&[0usize, 1, 3, 16]);
+                let v = rand_bytes(&mut f, n);
+                let at = f.usize_below(entries.len() + 1);
+                entries.insert(at, Entry::new(31 * k + 27, v));
+                "grease_id".into()
+            }
+            9 => {
+                let id = if int_ids.is_empty() || f.one_in(3) { *f.pick(&[0x01u64, 0x04, 0x08, 0x0b, 0x0e, 0x20]) } else { *f.pick(&int_ids) };
+                let mut v = varint_bytes(legal_int(id, &mut f), 0);
+                let extra = f.range(1, 3) as usize;
+                v.extend(rand_bytes(&mut f, extra));
+                upsert(&mut entries, &mut f, id, v);
+                "trailing_bytes".into()
+            }
+            10 => {
+                let id = *f.pick(&[rfc::DISABLE_MIGRATION, rfc::GREASE_QUIC_BIT]);
+                let n = f.range(1, 3) as usize;
+                let v = rand_bytes(&mut f, n);
+                upsert(&mut entries, &mut f, id, v);
+                "flag_nonempty".into()
+            }
+            11 => {
+                let id = if peer_server { *f.pick(&[rfc::ISCID, rfc::ISCID, rfc::ODCID, rfc::RETRY_SCID]) } else { rfc::ISCID };
+                let n = *f.pick(&[21usize, 21, 22, 24, 255]);
+                let v = rand_bytes(&mut f, n);
+                upsert(&mut entries, &mut f, id, v);
+                "cid_too_long".into()
+            }
+            12 => {
+                let id = if int_ids.is_empty() || f.one_in(3) { *f.pick(&[0x01u64, 0x04, 0x09, 0x0a, 0x20]) } else { *f.pick(&int_ids) };
+                let v = if f.one_in(3) {
+                    Vec::new()
+                } else {
+                    let w = *f.pick(&[2u8, 4, 8]);
+                    let mut b = varint_bytes(legal_int(id, &mut f).min(63), w);
+                    let keep = f.range(1, w as u64 - 1) as usize;
+                    b.truncate(keep);
+                    b
+                };
+                upsert(&mut entries, &mut f, id, v);
+                "truncated_value".into()
+            }
+            13 => {
+                if !peer_server {
+                    continue;
+                }
+                let n = *f.pick(&[0usize, 1, 15, 17, 32]);
+                let v = rand_bytes(&mut f, n);
+                upsert(&mut entries, &mut f, rfc::RESET_TOKEN, v);
+                "token_len".into()
+            }
+            14 => {
+                if !peer_server {
+                    continue;
+                }
+                let (v, l) = match f.below(4) {
+                    0 => (pref_addr(&mut f, &[]), "pref_addr.zero_cid"),
+                    1 => {
+                        let cid = rand_bytes(&mut f, 21);
+                        (pref_addr(&mut f, &cid), "pref_addr.cid_len")
+                    }
+                    2 => {
+                        let cid = rand_bytes(&mut f, 8);
+                        let mut v = pref_addr(&mut f, &cid);
+                        let cut = *f.pick(&[1usize, 8, 16, 17, 30, 48]);
+                        v.truncate(v.len() - cut);
+                        (v, "pref_addr.short")
+                    }
+                    _ => {
+                        let cid = rand_bytes(&mut f, 8);
+                        let mut v = pref_addr(&mut f, &cid);
+                        v.push(0);
+                        (v, "pref_addr.trailing")
+                    }
+                };
+                upsert(&mut entries, &mut f, rfc::PREFERRED_ADDRESS, v);
+                l.into()
+            }
+            15 => {
+                if !peer_server || find(&entries, rfc::ISCID).is_none() {
+                    continue;
+                }
+                observed_scid.clear();
+                let i = find(&entries, rfc::ISCID).unwrap();
+                entries[i].value.clear();
+                let cid = rand_bytes(&mut f, 8);
+                let v = pref_addr(&mut f, &cid);
+                upsert(&mut entries, &mut f, rfc::PREFERRED_ADDRESS, v);
+                "pref_addr.zero_scid".into()
+            }
+            16 => {
+                cut_tail = f.range(1, 6) as u16;
+                "blob_cut".into()
+            }
+            17 => {
+                let Some(last) = entries.last_mut() else { continue };
+                last.declared_len = Some(last.value.len() as u64 + *f.pick(&[1u64, 2, 63, 64, 16384]));
+                "len_overrun".into()
+            }
+            18 | 19 => {
+                if entries.is_empty() {
+                    continue;
+                }
+                let i = f.usize_below(entries.len());
+                let e = &mut entries[i];
+                match f.below(3) {
+                    0 => e.id_width = *f.pick(&[2u8, 4, 8]),
+                    1 => e.len_width = *f.pick(&[2u8, 4, 8]),
+                    _ => {
+                        if rfc::def(e.id).is_some_and(|d| d.ty == Ty::Int) {
+                            if let Some((v, n)) = rfc::get_varint(&e.value) {
+                                if n == e.value.len() && n < 8 {
+                                    let w = *f.pick(&[2u8, 4, 8]);
+                                    e.value = varint_bytes(v, w.max(rfc::min_width(v)));
+                                }
+                            }
+                        } else {
+                            e.len_width = 2;
+                        }
+                    }
+                }
+                "nonminimal_varint".into()
+            }
+            20 => {
+                // Values above 65527 are not generated: RFC 9000 only calls values below 1200 invalid, but no
+                // UDP payload can exceed 65527 and gm-quic refuses larger values; the statement does not
+                // settle which is right, so the case is left unjudged (DESIGN §5 C18).
+                let v = *f.pick(&[65527u64, 65526, 1200, 1472]);
+                upsert(&mut entries, &mut f, rfc::MAX_UDP_PAYLOAD, varint_bytes(v, 0));
+                "legal_edge.max_udp_payload_at_bounds".into()
+            }
+            21 => {
+                observed_scid = different_cid(&mut f, &observed_scid);
+                "cid_mismatch.initial_source_connection_id".into()
+            }
+            22 => {
+                if !client_ut {
+                    continue;
+                }
+                odcid = different_cid(&mut f, &odcid);
+                "cid_mismatch.original_destination_connection_id".into()
+            }
+            _ => {
+                if !client_ut {
+                    continue;
+                }
+                match f.below(3) {
+                    0 => {
+                        retry_op = false;
+                        upsert(&mut entries, &mut f, rfc::RETRY_SCID, retry_scid.clone());
+                        "retry.unexpected".into()
+                    }
+                    1 => {
+                        retry_op = true;
+                        entries.retain(|e| e.id != rfc::RETRY_SCID);
+                        "retry.absent".into()
+                    }
+                    _ => {
+                        retry_op = true;
+                        let v = different_cid(&mut f, &retry_scid);
+                        upsert(&mut entries, &mut f, rfc::RETRY_SCID, v);
+                        "retry.mismatch".into()
+                    }
+                }
+            }
+        };
+        labels.push(label);
+        applied += 1;
+    }
+    for e in entries.iter_mut() {
+        e.real_writer = f.chance(0.6);
+    }
+
+    // remembered server parameters (client): related to the new values so that both verdicts are frequent
+    let mut z = Rng::derive(seed, "zero_rtt");
+    let remembered = if client_ut && z.one_in(2) {
+        let reduce = z.one_in(2);
+        let mut rem = Vec::new();
+        for id in rfc::ZERO_RTT_LIMITS {
+            let d = rfc::def(id).unwrap();
+            let new = find(&entries, id)
+                .and_then(|i| rfc::get_varint(&entries[i].value))
+                .map(|(v, _)| v)
+                .unwrap_or(d.default)
+                .clamp(d.min, d.max);
+            let v = match z.below(if reduce { 6 } else { 4 }) {
+                0 | 1 => Some(new),
+                2 => Some(new.saturating_sub(1).max(d.min)),
+                3 => None,
+                4 => Some((new + 1).min(d.max)),
+                _ => Some(d.max),
+            };
+            if let Some(v) = v {
+                rem.push((id, v));
+            }
+        }
+        Some(rem)
+    } else {
+        None
+    };
+
+    // schedule
+    let mut s = Rng::derive(seed, "sched");
+    let mut ops = if s.one_in(2) { vec![Op::Tls, Op::Initial] } else { vec![Op::Initial, Op::Tls] };
+    if s.one_in(12) {
+        let i = s.usize_below(2);
+        ops.remove(i);
+        labels.push("incomplete_handshake".into());
+    }
+    let waiters = s.below(4);
+    for _ in 0..waiters {
+        let at = s.usize_below(ops.len() + 1);
+        ops.insert(at, Op::Wait);
+    }
+    if waiters > 0 {
+        for _ in 0..s.below(3) {
+            let at = s.usize_below(ops.len() + 1);
+            ops.insert(at, Op::Spurious(s.below(4) as u8));
+        }
+    }
+    if s.one_in(7) {
+        let at = s.usize_below(ops.len() + 1);
+        ops.insert(at, Op::ConnError(s.below(4) as u8));
+        labels.push("conn_error".into());
+    }
+    if retry_op {
+        // a Retry can only precede the server's first Initial packet and its TLS messages
+        ops.insert(0, Op::Retry);
+    }
+
+    Case { client_under_test: client_ut, local_idle_ms, entries, cut_tail, observed_scid, odcid, retry_scid, remembered, ops, labels }
+}
+
+impl Engine for ParamSim {
+    type Case = Case;
+    fn name(&self) -> &'static str {
+        "paramsim"
+    }
+    fn components_real(&self) -> Vec<&'static str> {
+        vec![
+            "qbase::param::{Parameters, ArcParameters, ClientParameters, ServerParameters}",
+            "qbase::param::io::{parse_from_bytes, WriteParameter}",
+            "qbase::param::core::{ParameterId::{belong_to, validate}, is_0rtt_accepted}",
+            "qbase::time::{ArcIdleConfig, ArcIdleTimer}",
+            "tokio paused clock",
+        ]
+    }
+    fn components_stub(&self) -> Vec<&'static str> {
+        vec!["TLS (the extension blob is handed over directly)", "packet receive path (observed connection ids are given)", "task executor (counting wakers)"]
+    }
+    fn generate(&self, _index: u64, seed: u64, _tier: Tier) -> Case {
+        generate(seed)
+    }
+    fn execute(&self, case: &Case) -> Outcome {
+        let rt = tokio::runtime::Builder::new_current_thread().enable_time().start_paused(true).build().unwrap();
+        rt.block_on(exec::run(case))
+    }
+    fn shrink(&self, case: &Case) -> Vec<Case> {
+        let mut v = Vec::new();
+        if case.entries.len() > 2 {
+            // keep only the mandatory connection-id parameters
+            let mut c = case.clone();
+            c.entries.retain(|e| e.id == rfc::ISCID || e.id == rfc::ODCID);
+            v.push(c);
+        }
+        for i in (0..case.entries.len()).rev() {
+            let mut c = case.clone();
+            c.entries.remove(i);
+            v.push(c);
+        }
+        for i in (0..case.ops.len()).rev() {
+            if !matches!(case.ops[i], Op::Tls | Op::Initial) {
+                let mut c = case.clone();
+                c.ops.remove(i);
+                v.push(c);
+            }
+        }
+        if case.cut_tail != 0 {
+            v.push(Case { cut_tail: 0, ..case.clone() });
+        }
+        if case.remembered.is_some() {
+            v.push(Case { remembered: None, ..case.clone() });
+        }
+        if let Some(rem) = &case.remembered {
+            for i in 0..rem.len() {
+                let mut r = rem.clone();
+                r.remove(i);
+                v.push(Case { remembered: Some(r), ..case.clone() });
+            }
+        }
+        if case.local_idle_ms != 0 {
+            v.push(Case { local_idle_ms: 0, ..case.clone() });
+        }
+        for i in 0..case.entries.len() {
+            let e = &case.entries[i];
+            if e.id_width != 0 || e.len_width != 0 || e.real_writer {
+                let mut c = case.clone();
+                c.entries[i].id_width = 0;
+                c.entries[i].len_width = 0;
+                c.entries[i].real_writer = false;
+                v.push(c);
+            }
+            if e.declared_len.is_some() {
+                let mut c = case.clone();
+                c.entries[i].declared_len = None;
+                v.push(c);
+            }
+        }
+        for i in (0..case.ops.len()).rev() {
+            if matches!(case.ops[i], Op::Tls | Op::Initial) {
+                let mut c = case.clone();
+                c.ops.remove(i);
+                v.push(c);
+            }
+        }
+        if !case.labels.is_empty() {
+            v.push(Case { labels: Vec::new(), ..case.clone() });
+        }
+        // canonical connection ids: rename a connection id everywhere it occurs
+        let rename = |from: &Vec<u8>, to: Vec<u8>| -> Option<Case> {
+            if *from == to || [&case.observed_scid, &case.odcid, &case.retry_scid].iter().any(|c| ***c == to) {
+                return None;
+            }
+            let mut c = case.clone();
+            for e in c.entries.iter_mut() {
+                if e.value == *from && rfc::def(e.id).is_some_and(|d| d.ty == Ty::Cid) {
+                    e.value = to.clone();
+                }
+            }
+            for f in [&mut c.observed_scid, &mut c.odcid, &mut c.retry_scid] {
+                if *f == *from {
+                    *f = to.clone();
+                }
+            }
+            Some(c)
+        };
+        v.extend(rename(&case.observed_scid, vec![1]));
+        v.extend(rename(&case.odcid, vec![2]));
+        v.extend(rename(&case.retry_scid, vec![3]));
+        // shorter / simpler values
+        for i in 0..case.entries.len() {
+            let val = &case.entries[i].value;
+            let mut cands: Vec<Vec<u8>> = Vec::new();
+            if val.len() > 1 {
+                cands.push(val[..val.len() / 2].to_vec());
+                cands.push(val[..val.len() - 1].to_vec());
+            }
+            if case.entries[i].id == rfc::PREFERRED_ADDRESS && val.len() > 25 {
+                // keep only the connection-id length byte
+                let mut z = vec![0u8; val.len()];
+                z[24] = val[24];
+                cands.push(z);
+            } else if val.iter().skip(1).any(|b| *b != 0) {
+                let mut z = vec![0u8; val.len()];
+                z[0] = val[0];
+                cands.push(z);
+            }
+            for nv in cands {
+                if nv != *val {
+                    let mut c = case.clone();
+                    c.entries[i].value = nv;
+                    v.push(c);
+                }
+            }
+        }
+        v
+    }
+}
